@@ -95,9 +95,12 @@ struct Sym {
   constexpr Sym &operator*=(const Sym &o);
   constexpr Sym &operator/=(const Sym &o);
   explicit operator real_t() const { return v; }
-  explicit operator int() const { return (int)v; }
-  explicit operator long() const { return (long)v; }
-  explicit operator bool() const { return v != 0; }
+  // conversions to integer types truncate towards zero: for a symbolic value they are integer-valued fork points
+  explicit operator int() const;
+  explicit operator long() const;
+  explicit operator unsigned() const { return (unsigned)(long)(*this); }
+  explicit operator unsigned long() const { return (unsigned long)(long)(*this); }
+  explicit operator bool() const;
 };
 // constants combined with constants stay constants (folded by IEEE double arithmetic exactly as the
 // real code would do at run time); anything touching a symbolic operand is recorded.
@@ -131,6 +134,12 @@ inline long fork(const char *kind, int a, int b, long shadow) {
   C.path.push_back(Fork{kind, a, b, taken});
   return taken;
 }
+inline Sym::operator long() const {
+  if (id < 0) return (long)v;
+  long shadow = (v != v || v > 9.0e18 || v < -9.0e18) ? (long)INT_MIN : (long)v;
+  return fork("truncint", id, -1, shadow);
+}
+inline Sym::operator int() const { return (int)(long)(*this); }
 inline bool branch(const char *op, const Sym &a, const Sym &b, bool shadow) {
   if (a.id < 0 && b.id < 0) return shadow;
   return fork(op, a.node(), b.node(), shadow ? 1 : 0) != 0;
@@ -141,6 +150,7 @@ inline bool operator>(const Sym &a, const Sym &b) { return branch("lt", b, a, a.
 inline bool operator>=(const Sym &a, const Sym &b) { return branch("le", b, a, a.v >= b.v); }
 inline bool operator==(const Sym &a, const Sym &b) { return branch("eq", a, b, a.v == b.v); }
 inline bool operator!=(const Sym &a, const Sym &b) { return !branch("eq", a, b, a.v == b.v); }
+inline Sym::operator bool() const { return *this != Sym(0.0); }
 #define SYMX_CMP(OPN)                                                                                                     \
   template <class T, class = typename std::enable_if<std::is_arithmetic<T>::value>::type>                                \
   inline bool operator OPN(const Sym &a, T b) { return a OPN Sym(b); }                                                    \
